@@ -2,6 +2,9 @@
 use crate::util::rng::Rng;
 use crate::util::run::{CaseOut, Ctx, Summary};
 
+pub mod c06;
+pub mod c07;
+pub mod c08a;
 pub mod c14;
 pub mod c15;
 pub mod tcp_pair;
@@ -24,5 +27,12 @@ pub struct Monitor {
 }
 
 pub fn all() -> Vec<Monitor> {
-    vec![tcp_pair::monitor_c01(), tcp_pair::monitor_c02(), tcp_pair::monitor_c05(), tcp_pair::monitor_c13(), c14::monitor(), c15::monitor()]
+    vec![tcp_pair::monitor_c01(), tcp_pair::monitor_c02(), tcp_pair::monitor_c05(), c06::monitor(), c07::monitor(), c08(), tcp_pair::monitor_c13(), c14::monitor(), c15::monitor()]
+}
+
+/// C08: checksum routine vs. reference (c08a) [+ emitted-valid and enforced parts when built]
+fn c08() -> Monitor {
+    let mut m = c08a::monitor();
+    m.id = "C08";
+    m
 }
